@@ -880,6 +880,12 @@ def list_faults(members):
         out.append(("del-member", main[1:]))
     out.append(("del-member", CT_NAME))
     out.append(("del-member", "_rels/.rels"))
+    # a part member deleted while its own rels item stays behind (every relationship to it dangles and
+    # the loader still meets the orphaned rels item when it walks the graph)
+    for name, _data in members:
+        if name == CT_NAME or source_of_rels(name) is not None or (main is not None and name == main[1:]):
+            continue
+        out.append(("del-member", name))
     return out
 
 
